@@ -5,7 +5,7 @@ import json
 import subprocess
 import sys
 
-from common import PY, pyenv
+from common import PY, limit_resources, pyenv
 
 SCRIPT = r'''
 import sys, json
@@ -63,7 +63,7 @@ def run(build_dir, depths, timeout=900):
         for variant in ("plain", "list", "batch"):
             try:
                 r = subprocess.run([PY, "-c", SCRIPT, str(d), variant], capture_output=True, text=True,
-                                   env=pyenv(build_dir), timeout=timeout)
+                                   env=pyenv(build_dir), timeout=timeout, preexec_fn=limit_resources(12))
                 line = r.stderr.strip().splitlines()[-1] if r.stderr.strip() else "{}"
                 try:
                     o = json.loads(line)
